@@ -39,6 +39,7 @@ def judge(ctx, cases, nontrivial, ex):
         if not problems and ctx.cov["evaluations"] % 1500 == 1:
             ctx.sample({"pa": v["pa"], "pv": v["pv"], "observed": {k: o[k] for k in ("where", "delivered", "invoked", "status", "uri")}})
     ex.prepare([c["v"] for c, _ in pending])
+    hc.validate_cases(ctx, cases, "C02", skip_ids={c["id"] for c, _ in pending}, ex=ex)
     for c, problems in pending:
         v, o = c["v"], c["obs"]
         dev = ex.explain(v, o, focus=["invoked", "status", "delivered", "errname"])
@@ -55,7 +56,7 @@ def run(ctx):
     for d in hc.DEVIATIONS[:5]:
         ctx.mc_expect_violation("mc/MC_HTTPTransport", consts={"Deviations": '{"%s"}' % d}, label="MC dev " + d)
     vectors = hc.gen_vectors(ctx, "req", 1, 1)
-    frac = float(__import__("os").environ.get("VERIF_FRAC") or (0.25 if quick else 1.0))
+    frac = float(__import__("os").environ.get("VERIF_FRAC") or (0.12 if quick else 1.0))
     vectors = hc.sample_shapes(vectors, frac, ctx.seed)
     cases, pl = hc.run_family(ctx, "req", vectors)
     for i, f in sorted(pl.failed.items()):
@@ -64,6 +65,8 @@ def run(ctx):
     judge(ctx, cases, nontrivial, hc.Explainer(ctx, "req", 1, 1))
     ctx.cov["designs"] = len(pl.designs)
     ctx.cov["designs_failed"] = len(pl.failed)
+    if ctx.selftest or not quick:
+        hc.trace_selftest(ctx, cases)
     if not quick:
         # two-attribute methods: too many to enumerate, seeded pairs of the enumerated single-attribute cases, judged by TLC (Cases_HTTPTransport)
         uniq = hc.combine_cases(ctx, hc.gen_vectors(ctx, "req", 1, 1, label="Gen req 1x1 (for pairs)"), 4000, ctx.seed)
